@@ -18,6 +18,12 @@ static inline ABT_bool is_initialized_library(void);
 /* Global Data */
 ABTI_global *gp_ABTI_global = NULL;
 
+#ifdef PMODELS_ARGOBOTS_VERIF
+/* Verification hook called before every ABTD_atomic_* operation (see
+ * abtd_atomic.h).  NULL unless a verification harness installs one. */
+void (*ABTD_verif_hook)(const void *addr, int op) = NULL;
+#endif
+
 /* To indicate how many times ABT_init is called. */
 static uint32_t g_ABTI_num_inits = 0;
 /* A global lock protecting the initialization/finalization process */
